@@ -64,8 +64,22 @@ def _check_window(batch, j, rows, h, inter):
                 raise Mismatch(f"reduced view: {f} {got} differs from the window's {want}")
 
 
+def _observers(ad):
+    """read-only public calls: whatever they return, they must leave the buffer as it is (the projection compared
+    after the step, and every later sample, see a write)"""
+    buf = ad.buf
+    len(buf)
+    if buf.current_len > 0:
+        buf.reward_scale()
+        if ad.mt is not None:
+            ad.mt.reward_scale()
+            len(ad.mt)
+    _ = buf.environment_terminates
+
+
 def step(ad: SubtrajAdapter, op, args, exp, pre, post):
     buf = ad.buf
+    _observers(ad)
     if op == "Add":
         end, ep, t = args
         if ad.mt is not None:
